@@ -340,6 +340,12 @@ func (update *Update) Prepend(eventlist *EventList) error {
 	if count == 0 {
 		return nil
 	}
+	if len(update.Events) == 0 {
+		return errors.New("cannot prepend to an update without events")
+	}
+	if update.SignedAccumulator == nil || update.SignedAccumulator.Accumulator == nil {
+		return errors.New("cannot prepend to an update that has not been verified")
+	}
 	ours := update.Events[0].Index
 	last := eventlist.Events[count-1].Index
 	if last < ours-1 {
@@ -360,7 +366,9 @@ func (update *Update) Prepend(eventlist *EventList) error {
 		// eventlist covers all of our events
 		n.product = big.NewInt(1)
 	}
-	n.Events = append(eventlist.Events, n.Events...)
+	// (a new slice: appending to eventlist.Events could write into an array that another update,
+	// extended with the same list earlier, still uses)
+	n.Events = append(append(make([]*Event, 0, count+len(n.Events)), eventlist.Events...), n.Events...)
 	if eventlist.product != nil {
 		n.product.Mul(n.product, eventlist.product)
 		n.productFrom = n.Events[0].Index
